@@ -2,7 +2,7 @@
    This file contains only statements closed by `exact` and their Print Assumptions.
    Model: scopes/Machine.v (S machine).  Tie T: ChainGen.v is regenerated from the Python source by
    tools/translate_chain.py on every check; the *_gen_eq theorems below are what breaks when a walk changes. *)
-From AV Require Import Base Machine ChainSpec ChainGen ChainEq ChainFrame ChainThms ChainWalk ChainMono.
+From AV Require Import Base Machine ChainSpec ChainGen ChainEq ChainFrame ChainThms ChainWalk ChainMono NativeAbsorbed.
 
 (* ---------------- tie T: generated code = specification, for all chains ---------------- *)
 Theorem C04_eff_cancelled_gen_eq : forall l : list scope_rec,
@@ -198,3 +198,16 @@ Theorem C04_outside_reach_untouched : forall (fuel : nat) (s : st) (self origin 
   tasks (fst (deliver fuel s self origin)) t = tasks s t.
 Proof. exact outside_reach_untouched. Qed.
 Print Assumptions C04_outside_reach_untouched.
+
+(* ---- known finding F25: "code inside a shielded scope is never interrupted" is refuted for shields raised late ----
+   The request-time theorems above say that a cancellation is only ever PLACED on a task that reaches the cancelled
+   scope.  The receipt-time clause is false of the faithful model and of the code (corpus/C04/f25_*.json, replayed
+   against the implementation on every run): once the request has been placed, raising a shield in between does not
+   retract it (asyncio cannot take back Task.cancel()); the task is interrupted although its current scope is
+   shielded and not effectively cancelled at that moment. *)
+Theorem C04_shield_raised_after_request_refuted :
+  let pre := final step init (removelast f25_ops) in
+  k_cur (tasks pre 1%nat) = Some 2%nat /\ s_shield (scopes pre 2%nat) = true /\ eff_cancelled pre 2%nat = false /\
+  last (results init f25_ops) RNone = RExc (ECancel 2%nat).
+Proof. exact shield_raised_after_request_witness. Qed.
+Print Assumptions C04_shield_raised_after_request_refuted.
